@@ -68,21 +68,56 @@ func c17run(op int, c IClaims, e *Evidence, w *verifWorld, buf []byte, p string)
 	return 0
 }
 
+// c17state: an arbitrary VALID claims-set of the selected profile (components included) that
+// NO library function has touched yet, a decodable input for it, and - for the Evidence
+// operations - a shared Evidence obtained by DECODING a token signed over it
+func c17state(w *verifWorld, needEv bool) (IClaims, *Evidence, []byte, bool) {
+	c, _, g1, g2 := verifGenValid()
+	var buf []byte
+	if ndSymbolic() {
+		buf = verifDecodeInput(c, g1, g2, false)
+	} else {
+		// (natively the input is the real encoding: taken from a second, identical instance so
+		// that the shared one stays untouched)
+		cB, _, g1B, g2B := verifGenValid()
+		buf = verifDecodeInput(cB, g1B, g2B, false)
+	}
+	if !needEv {
+		return c, nil, buf, true
+	}
+	s := &Evidence{Claims: c}
+	tok, err := s.Sign(w.signer(0, 0))
+	if err != nil {
+		return nil, nil, nil, false
+	}
+	tbuf := ndCopyBytes(tok)
+	if ndSymbolic() {
+		if g1 == nil {
+			return nil, nil, nil, false // the per-buffer decode script yields profile-1 claims
+		}
+		verifStub.byBuf = append(verifStub.byBuf, verifBufClaims{buf: s.message.Payload, g1: g1})
+		verifCose.toks = append(verifCose.toks, verifTokRec{bytes: tbuf, msg: verifCloneMsg(s.message)})
+	}
+	e, derr := DecodeEvidenceFromCOSE(tbuf)
+	if derr != nil {
+		return nil, nil, nil, false
+	}
+	return c, e, buf, true
+}
+
 func VerifC17() {
 	verifInstallStubs()
 	w := verifNewWorld(2)
 	op := ndParam("op", 0)
-	g := c19valid("x.", ".X")
-	c := IClaims(g.c)
 	p := "PSA_IOT_PROFILE_1"
 	if ndBool("newclaims.p2") {
 		p = "http://arm.com/psa/2.0.0"
 	}
-	e := &Evidence{Claims: c}
-	if _, err := e.Sign(w.signer(0, 0)); err != nil {
+	needEv := op == 6 || op == 8
+	c, e, buf, ok := c17state(w, needEv)
+	if !ok {
 		return
 	}
-	buf := verifDecodeInput(c, g, nil, false)
 	if ndSymbolic() {
 		mark := ndWriteMark()
 		c17run(op, c, e, w, buf, p)
@@ -90,26 +125,33 @@ func VerifC17() {
 		ndCoverSym("c17-ran", true)
 		return
 	}
-	// native: sequential reference, then 16 goroutines x 2 runs each under the race detector
-	want := c17run(op, c, e, w, buf, p)
+	// native: 16 goroutines x 2 runs each under the race detector, all starting from the SAME
+	// pre-state the symbolic run starts from (nothing warmed up by an earlier sequential call:
+	// a lazily filled cache or a normalise-on-first-use write happens only once); afterwards the
+	// sequential reference is computed on a second, identically built instance
 	var wg sync.WaitGroup
-	var mu sync.Mutex
-	same := true
+	gots := make([]int, 32) // one slot per run: no lock, hence no happens-before edge between the workers
 	for i := 0; i < 16; i++ {
 		wg.Add(1)
-		go func() {
+		go func(i int) {
 			defer wg.Done()
 			for k := 0; k < 2; k++ {
-				got := c17run(op, c, e, w, buf, p)
-				if op != 2 && op != 3 && op != 8 && got != want {
-					mu.Lock()
-					same = false
-					mu.Unlock()
-				}
+				gots[2*i+k] = c17run(op, c, e, w, buf, p)
 			}
-		}()
+		}(i)
 	}
 	wg.Wait()
+	c2, e2, buf2, ok := c17state(w, needEv)
+	if !ok {
+		return
+	}
+	want := c17run(op, c2, e2, w, buf2, p)
+	same := true
+	for _, got := range gots {
+		if op != 2 && op != 3 && op != 8 && got != want {
+			same = false
+		}
+	}
 	ndAssert("c17-no-write-to-preexisting-memory", same)
 	ndCover("c17-ran", true)
 }
